@@ -760,8 +760,9 @@ fn read_while(cur: &mut SourceCursor, song: &mut Song) -> Token {
     let cond_tok = lex_calc(song, &cond_s, lineno);
     cur.skip_space();
     // read body
+    let body_lineno = cur.line; // the block starts on this line
     let body_s = cur.get_token_nest('{', '}');
-    let body_tok = lex(song, &body_s, lineno);
+    let body_tok = lex(song, &body_s, body_lineno);
     // while
     let while_tok = Token::new_tokens_lineno(TokenType::While, 0, vec![
         Token::new_tokens(TokenType::Tokens, 0, cond_tok),
@@ -787,6 +788,7 @@ fn read_for(cur: &mut SourceCursor, song: &mut Song) -> Token {
         read_error_cmd(cur, song, "FOR");
         return Token::new_empty("ERROR:FOR", cur.line);
     }
+    let body_lineno = cur.line; // the block starts on this line
     let body_s = cur.get_token_nest('{', '}');
     // もし、String型のinit_sが"Int "から始まっていなければ"Int "を足す
     let init_s = if init_s == "" || (init_s.starts_with("Int ") || init_s.starts_with("INT "))  {
@@ -797,7 +799,7 @@ fn read_for(cur: &mut SourceCursor, song: &mut Song) -> Token {
     let init_tok = lex(song, &init_s, lineno);
     let cond_tok = lex_calc(song, &cond_s, lineno);
     let inc_tok = lex(song, &inc_s, lineno);
-    let body_tok = lex(song, &body_s, lineno);
+    let body_tok = lex(song, &body_s, body_lineno);
     let for_tok = Token::new_tokens_lineno(TokenType::For, 0, vec![
         Token::new_tokens(TokenType::Tokens, 0, init_tok),
         Token::new_tokens(TokenType::Tokens, 0, cond_tok),
@@ -837,8 +839,9 @@ fn read_if(cur: &mut SourceCursor, song: &mut Song) -> Token {
             read_error_cmd(cur, song, "IF");
             return Token::new_empty("ERROR:IF:ELSE", else_lineno);
         }
+        let else_block_lineno = cur.line; // the block starts on this line
         let else_s = cur.get_token_nest('{', '}');
-        else_tok = lex(song, &else_s, else_lineno);
+        else_tok = lex(song, &else_s, else_block_lineno);
     }
     // println!("cond: {:?}", cond_tok);
     // token
